@@ -307,7 +307,7 @@ func runSessionRaw(in sessIn) (*sessObs, Sx) {
 			ob.estab = append(ob.estab, estab)
 			mu.Unlock()
 			ob.after = append(ob.after, snapClient(client))
-			conns = append(conns, L(L(), errSx(cerr), snapSx(snapClient(client))))
+			conns = append(conns, L(L(), errSx(cerr), snapSx(snapClient(client)), L()))
 			// listen again on the same port for later connections
 			if e := srv.relisten(); e != nil {
 				return ob, L(SBytes("relisten-failed"))
@@ -340,6 +340,26 @@ func runSessionRaw(in sessIn) (*sessObs, Sx) {
 				}
 				time.Sleep(300 * time.Microsecond)
 			}
+			// every third stanza was followed by <r/>: wait until the server has the answers
+			wantA := (c.Traffic + 2) / 3
+			for time.Now().Before(deadline) {
+				na := 0
+				for _, l := range srv.snapshot() {
+					_ = l
+				}
+				logs := srv.snapshot()
+				if srvIdx < len(logs) {
+					for _, e := range logs[srvIdx].Elems {
+						if e.Kind == "a" {
+							na++
+						}
+					}
+				}
+				if na >= wantA {
+					break
+				}
+				time.Sleep(300 * time.Microsecond)
+			}
 			srv.drop(srvIdx)
 			select {
 			case <-rdone:
@@ -368,7 +388,15 @@ func runSessionRaw(in sessIn) (*sessObs, Sx) {
 		snap := snapClient(client)
 		ob.after = append(ob.after, snap)
 		var reqs []Sx
+		answers := []Sx{}
 		for _, e := range lg.Elems {
+			if e.Kind == "a" {
+				h, err := strconv.Atoi(e.A)
+				if err != nil {
+					h = -1
+				}
+				answers = append(answers, Zi(h))
+			}
 			if e.Kind == "a" || e.Kind == "presence" || e.Kind == "r" {
 				continue // post-session traffic
 			}
@@ -376,7 +404,7 @@ func runSessionRaw(in sessIn) (*sessObs, Sx) {
 				reqs = append(reqs, L(x, B(e.Secure)))
 			}
 		}
-		conns = append(conns, L(LS(reqs), errSx(cerr), snapSx(snap)))
+		conns = append(conns, L(LS(reqs), errSx(cerr), snapSx(snap), LS(answers)))
 	}
 	return ob, LS(conns)
 }
